@@ -85,6 +85,14 @@ theorem C10_seg_total (s : Seg V) (LV : List (SegVal V)) (T : Option Int) (h : S
     obtain ⟨it, s', it', items, rest, h1, h2, _⟩ := C03_query s LV T a b t n h hq hT
     exact ⟨it, h1, by simp [h2]⟩
 
+/-- the same along every in-contract history of the segment tree: no operation faults in a reachable state -/
+theorem C10_seg_history_total {lo hi : Int} {s : Seg V} {LV : List (SegVal V)} {T : Option Int}
+    (h : SegReach lo hi s LV T) :
+    (∀ v : SegVal V, InDomain s.layout v.lo v.hi → (s.insert v.lo v.hi v.val v.exp).isSome) ∧
+    (∀ a b t n, InDomain s.layout a b → (∀ t0, T = some t0 → t0 ≤ t) →
+      ∃ it, s.iter a b t = some it ∧ (segTake n s it []).isSome) :=
+  C10_seg_total s LV T h.ok
+
 omit [DecidableEq V] in
 /-- mask arithmetic: every mask value is below `2^63` (so no `u64` shift or or-combination overflows)
 and every place bit is below the chunk count -/
